@@ -26,7 +26,7 @@ def setup_worker():
 
 
 def shards(tier, seed):
-    n = 120 if tier == "quick" else 2500
+    n = 120 if tier == "quick" else 12000
     return [dict(seed=seed * 1000 + i, n=n) for i in range(16)]
 
 
